@@ -51,6 +51,10 @@ dyk_f = z3.Function('dykstra', V, V, V)        # dykstra(projections, x)
 copy_id = lambda v: v
 
 
+ZEROV, ONEV, INFV = z3.Consts('zerov onev infv', V)
+FZERO, FONE, FINF = z3.Consts('f0 f1 finf', F)
+
+
 def unopt(v):
     return v.val if isinstance(v, Opt) else v
 
@@ -95,7 +99,7 @@ class Arr:
             return Rows(self, idx)
         if kind == 'prefix' and isint(idx):
             return Prefix(self, idx)
-        eng.unsup(e, 'array index form')
+        # any other read (fancy index by an untracked array, general slices) is a havoc value: sound for reads
         return UNK
 
     def setitem(self, t, v, eng, st):
@@ -129,6 +133,11 @@ class Arr:
 class Rows:
     def __init__(self, base, idx):
         self.base, self.idx = base, idx
+
+
+class NanMask:
+    def __init__(self, p):
+        self.p = p
 
 
 class Prefix:
@@ -170,22 +179,60 @@ class ModelDomain(Domain):
         b['np.maximum'] = lambda eng, n, a, k, st: self.vop(vmax_f, a)
         b['np.append'] = self.b_append
         b['np.argmin'] = self.b_argmin
-        b['np.isnan'] = lambda eng, n, a, k, st: isnan_f(unopt(a[0])) if is_f(unopt(a[0])) else UNK
+        b['np.isnan'] = self.b_isnan
+        b['np.where'] = self.b_where
         b['np.dot'] = lambda eng, n, a, k, st: mulJ_f(a[0], a[1]) if all(isz(x) and x.sort() == V for x in a[:2]) else UNK
         b['dykstra'] = lambda eng, n, a, k, st: dyk_f(self.projtok(a[0]), a[1]) if isz(a[1]) and a[1].sort() == V else UNK
         b['float'] = self.b_float_m
+        b['np.zeros'] = lambda eng, n, a, k, st: self.b_alloc(a, k, 'zero')
+        b['np.ones'] = lambda eng, n, a, k, st: self.b_alloc(a, k, 'one')
+
+    def b_isnan(self, eng, n, a, k, st):
+        v = unopt(a[0])
+        if is_f(v):
+            return isnan_f(v)
+        if isinstance(v, Prefix) and v.base.arr.sort().range() == F:
+            return NanMask(v)
+        return UNK
+
+    def b_where(self, eng, n, a, k, st):
+        # np.where(np.isnan(v), np.inf, v) on a prefix view: elementwise replacement of NaN by +inf
+        if len(a) == 3 and isinstance(a[0], NanMask) and a[1] is INF_TOKEN and isinstance(a[2], Prefix) \
+                and z3.eq(a[0].p.base.arr, a[2].base.arr) and z3.eq(a[0].p.n, a[2].n):
+            j = z3.Int(fresh_name('w'))
+            src = a[2].base.arr
+            arr = z3.Lambda([j], z3.If(isnan_f(z3.Select(src, j)), FINF, z3.Select(src, j)))
+            return Prefix(Arr(arr, a[2].base.len), a[2].n)
+        eng.unsup(n, 'np.where form')
+        return UNK
+
+    def b_alloc(self, a, k, what):
+        shp = a[0] if a else None
+        if isinstance(shp, tuple) and len(shp) == 2 and isint(shp[0]):
+            return Arr(z3.K(I, ZEROV if what == 'zero' else ONEV), shp[0])
+        if isinstance(shp, tuple) and len(shp) == 1 and isint(shp[0]):
+            if 'dtype' in k:
+                return Arr(z3.K(I, z3.IntVal(0 if what == 'zero' else 1)), shp[0])
+            return Arr(z3.K(I, FZERO if what == 'zero' else FONE), shp[0])
+        return UNK
 
     def init_state(self, st, fi, con):
         Domain.init_state(self, st, fi, con)
         b, s_, p_ = z3.Consts('b_ s_ p_', V)
         # real vector-space identity used by base shifts: (b + s) + (p - s) == b + p
         st.assume(z3.ForAll([b, s_, p_], vadd_f(vadd_f(b, s_), vsub_f(p_, s_)) == vadd_f(b, p_)))
+        st.assume(z3.ForAll([b], vadd_f(b, ZEROV) == b))
+        st.assume(z3.And(z3.Not(isnan_f(FINF)), z3.Not(isnan_f(FZERO)), z3.Not(isnan_f(FONE))))
+        xf = z3.Const('xf_', F)
+        st.assume(z3.ForAll([xf], rv_f(xf) <= rv_f(FINF)))      # +inf is the largest non-NaN value (rv of a NaN is irrelevant)
 
     def call(self, eng, e, st):
         name = dotted(e.func)
         if getattr(eng, 'in_spec', 0) and name in getattr(self, 'spec_builtins', {}):
             args = [eng.ev(a, st) for a in e.args]
             if any(is_unk(a) for a in args):
+                return UNK
+            if name not in ('same_opt', 'val') and any(a is NONE for a in args):
                 return UNK
             return self.spec_builtins[name](*args)
         if getattr(eng, 'in_spec', 0) and name == 'wavg':
@@ -240,6 +287,11 @@ class ModelDomain(Domain):
                 if op == '+':
                     return fadd_f(a, b)
                 return UNK
+        if a is INF_TOKEN and isinstance(b, Arr) and op == '*':
+            # np.inf * np.ones(shape)
+            if b.arr.range() == V:
+                return Arr(z3.K(I, INFV), b.len)
+            return Arr(z3.K(I, FINF), b.len)
         if isinstance(a, Wt) and isz(b) and b.sort() == V and op == '*':
             return Scaled(a.t, b)
         if isinstance(a, Scaled) and isinstance(b, Scaled) and op == '+':
@@ -298,7 +350,7 @@ class ModelDomain(Domain):
 
     def b_argmin(self, eng, node, args, kw, st):
         a = args[0]
-        if isinstance(a, Prefix) and a.base.arr.range() == F:
+        if isinstance(a, Prefix) and a.base.arr.sort().range() == F:
             arr, n = a.base.arr, a.n
             r = fint('argmin')
             j = z3.Int(fresh_name('j'))
@@ -310,6 +362,18 @@ class ModelDomain(Domain):
             return r
         eng.unsup(node, 'np.argmin form')
         return UNK
+
+    def global_name(self, eng, name, st):
+        if name in getattr(self, 'spec_consts', {}):
+            return self.spec_consts[name]
+        return Domain.global_name(self, eng, name, st)
+
+    def load_attr(self, eng, base, attr, st, node):
+        if node is not None and dotted(node) == 'np.inf':
+            return INF_TOKEN
+        if isz(base) and base.sort() == V and attr == 'shape':
+            return UNK
+        return Domain.load_attr(self, eng, base, attr, st, node)
 
     def lib_call(self, eng, e, name, args, kwargs, st):
         if name in self.builtins:
@@ -331,10 +395,13 @@ class ModelDomain(Domain):
             return hU_f(args[0].v)
         return Domain.callback(self, eng, cb, e, args, kwargs, st)
 
-    def load_attr(self, eng, base, attr, st, node):
-        if isz(base) and base.sort() == V and attr == 'shape':
-            return UNK
-        return Domain.load_attr(self, eng, base, attr, st, node)
+
+
+class InfToken:
+    pass
+
+
+INF_TOKEN = InfToken()
 
 
 class UScaled:
